@@ -60,6 +60,10 @@ func (p c03) Run(c *core.Ctx, idx int) {
 		o.Defaults = gm.Shape == "map"
 		cmp = dp.CmpOpts{IgnoreListOrder: true}
 	}
+	// every third schema has choices: a source then also has to say which case it holds (a struct field cannot say 'unset', so
+	// struct-shaped stores have nothing to detect the case by)
+	o.Choices = idx%3 == 1 && (storeKind == 0 || gm.Shape == "map")
+	o.NestedChoice = o.Choices && idx%2 == 0
 	s := dp.GenSchema(r, o)
 	if err := s.Compile(); err != nil {
 		c.R.Inconclusive = "generated schema does not compile: " + head(err.Error(), 300)
@@ -153,7 +157,8 @@ func (p c03) Run(c *core.Ctx, idx int) {
 			srcTree = dp.Derive(r, s, model, s.Top, do)
 			srcStore.Root = srcTree
 			srcNode = srcStore.Node()
-			jsonDoc = dp.EncodeJSON(s, srcTree, dp.JOpts{Int64AsString: r.Intn(2) == 0})
+			// half of the documents name their members the RFC 7951 way ("module:name" at the top and where the module changes)
+			jsonDoc = dp.EncodeJSON(s, srcTree, dp.JOpts{Int64AsString: r.Intn(2) == 0, Qualify: r.Intn(2) == 0})
 			outcome = dp.Apply(s, st, srcTree, scratch, false)
 		case "container", "entry":
 			mn, _, _ := scratch.Resolve(ep.path)
@@ -165,7 +170,8 @@ func (p c03) Run(c *core.Ctx, idx int) {
 				}
 			}
 			srcNode = srcStore.NodeAt(srcTree)
-			jsonDoc = dp.EncodeJSON(s, srcTree, dp.JOpts{Int64AsString: r.Intn(2) == 0})
+			qual := r.Intn(2) == 0
+			jsonDoc = dp.EncodeJSON(s, srcTree, dp.JOpts{Int64AsString: r.Intn(2) == 0, Qualify: qual, TopBelowRoot: qual})
 			outcome = dp.Apply(s, st, srcTree, mn, false)
 		case "list":
 			_, ml, _ := scratch.Resolve(ep.path)
